@@ -391,7 +391,17 @@ type hcaseJSON struct {
 	Round int    `json:"round"`
 }
 
+// expand replaces the port placeholders of an authority: $PV = the valid IPv4 origin, $P6 = the IPv6 origin
+func (r *rig) expand(auth string) string {
+	auth = strings.ReplaceAll(auth, "$PV", r.origins["valid"].port())
+	if r.origin6 != nil {
+		auth = strings.ReplaceAll(auth, "$P6", r.origin6.port())
+	}
+	return auth
+}
+
 func (r *rig) runHandshakeCase(p *proxy, c hcaseJSON) string {
+	c.Auth = r.expand(c.Auth)
 	host := c.Auth
 	if h, _, err := net.SplitHostPort(c.Auth); err == nil {
 		host = h
@@ -653,7 +663,7 @@ func main() {
 		opts := []proxyOpt{
 			{Name: "all"},
 			{Name: "insecure", Insecure: true},
-			{Name: "domains", Domains: []string{`.*\.test`, `-skip\.test`, `::1`, `EXAMPLE\.com`}},
+			{Name: "domains", Domains: []string{`^.*\.test$`, `-^skip\.test$`, `^::1$`, `^(?i)EXAMPLE\.com$`}},
 			{Name: "tiny", CacheSize: 1, CacheTTL: 300 * time.Millisecond},
 			{Name: "short", Validity: 2 * time.Second},
 		}
@@ -681,11 +691,11 @@ func main() {
 	}
 
 	if *replay == "" {
-		pv := r.origins["valid"].port()
+		pv := "$PV"
 		auths := []string{"a.test:" + pv, "A.TEST:" + pv, "Example.COM:" + pv, "example.com:" + pv, "skip.test:" + pv, "localhost:" + pv,
 			"127.0.0.1:" + pv, "10.1.2.3:443", "b.test:443", "deep.sub.b.test:8443", "[2001:db8::1]:8443", "[2001:DB8:0:0:0:0:0:1]:443"}
 		if r.origin6 != nil {
-			auths = append(auths, "[::1]:"+r.origin6.port())
+			auths = append(auths, "[::1]:$P6")
 		}
 		snis := func(a string) []string {
 			h, _, _ := net.SplitHostPort(a)
